@@ -47,6 +47,31 @@ theorem C12_path_files (w : World) (p f : Path) :
       subst this
       exact ⟨names, hf, hr⟩
 
+/-- Which entries are read.  A directory entry is descended into whatever its name looks like — dots,
+    several "extensions", a name ending in `.py`, digits — as long as the name is safe, not hidden and not
+    `__pycache__`; a regular-file entry is read iff, in addition, its name ends in `.py`.  (No extension test
+    is applied to directories.) -/
+theorem C12_path_visible (name : Str) (n : Node) :
+    visible name n = true ↔
+      (safeComp name = true ∧ hidden name = false ∧ name ≠ pycache) ∧
+      (match n with
+       | .dir _ _ => True
+       | .file _ => endsWith name dotPy = true) := by
+  cases n <;> simp [visible, and_assoc]
+
+/-- Every regular file `*.py` reachable by descending directories with acceptable names is in the file
+    list: one more directory level — of ANY acceptable name — in front of a reachable file keeps it
+    reachable, and the file list of the parent entry contains it. -/
+theorem C12_path_descends_any_dir (w : World) (p : Path) (dev : Nat) (ch : List (Str × Node))
+    (name : Str) (d' : Nat) (ch' : List (Str × Node)) (rest : List Str)
+    (hp : w.get p = some (.dir dev ch)) (hm : (name, Node.dir d' ch') ∈ ch)
+    (hs : safeComp name = true) (hh : hidden name = false) (hc : name ≠ pycache)
+    (hr : Reaches (.dir d' ch') rest) :
+    p ++ name :: rest ∈ entryFiles w p := by
+  rw [C12_path_files]
+  refine ⟨_, name :: rest, hp, rfl, Reaches.dir dev ch name _ rest hm ?_ hr⟩
+  exact (C12_path_visible name _).2 ⟨⟨hs, hh, hc⟩, trivial⟩
+
 /-- Explicit arguments are kept: an entry that is a regular file is taken whatever its name
     (hidden, not `*.py`, …). -/
 theorem C12_path_explicit_kept (w : World) (p : Path) (c : FileC) (h : w.get p = some (.file c)) :
@@ -415,6 +440,25 @@ example : ∀ f ∈ exFiles, FileOK f := by
 
 example : (fromCode exFiles).toOption.map (·.known) = some [⟨s "p.m", s "m"⟩] := by decide
 example : (fromCode exFiles).toOption.map (·.mandatory) = some [] := by decide
+
+/-- A `.pyflyby` directory laid out like a real one: `conf.d/local/forget.py`, `py3.12/versioned.py`,
+    `pkg.py/in.py` (a directory named like a module), next to things that must not be read. -/
+def exDir : Node :=
+  .dir 0 [(s ".hidden.py", .file ⟨false, []⟩),
+          (s "base.py", .file ⟨false, []⟩),
+          (s "conf.d", .dir 0 [(s ".hid.py", .file ⟨false, []⟩),
+                               (s "local", .dir 0 [(s "forget.py", .file ⟨false, []⟩)]),
+                               (s "notes.txt", .file ⟨false, []⟩),
+                               (s "site.py", .file ⟨false, []⟩)]),
+          (s "pkg.py", .dir 0 [(s "in.py", .file ⟨false, []⟩), (s "noext", .file ⟨false, []⟩)]),
+          (s "py3.12", .dir 0 [(s "__pycache__", .dir 0 [(s "c.py", .file ⟨false, []⟩)]),
+                               (s "versioned.py", .file ⟨false, []⟩),
+                               (s "x.py.bak", .file ⟨false, []⟩)])]
+
+example : (walk [s "db"] exDir).map (fun p => String.ofList (pathStr p)) =
+    ["/db/base.py", "/db/conf.d/local/forget.py", "/db/conf.d/site.py", "/db/pkg.py/in.py",
+     "/db/py3.12/versioned.py"] := by
+  decide +kernel
 
 end Witness
 
